@@ -51,9 +51,13 @@ def run_corpus(chk, exe, relevant=None):
 STATEFUL = ("cc ", "pn ", "pp ", "oracle ")
 
 
-def report_lines(chk, rep, relevant, where, max_witness=5, transcript=None):
-    """Turn SPEC / MON / CORR lines of a line-mode driver report into witnesses / broken-correspondence problems."""
+def report_lines(chk, rep, relevant, where, max_witness=5, transcript=None, only=None):
+    """Turn SPEC / MON / CORR lines of a line-mode driver report into witnesses / broken-correspondence problems.
+    only: regex on the request; report lines about other requests belong to another property and are ignored here."""
     n = {"spec": 0, "corr": 0, "mon": 0}
+    if only is not None:
+        keep = lambda l: (lambda p: bool(p) and re.match(only, p[1]) is not None)(parse_report_line(l))
+        rep = dict(rep, SPEC=[l for l in rep["SPEC"] if keep(l)], CORR=[l for l in rep["CORR"] if keep(l)], MON=[])
     for l in rep["SPEC"]:
         p = parse_report_line(l)
         if not p:
@@ -87,6 +91,17 @@ def report_lines(chk, rep, relevant, where, max_witness=5, transcript=None):
         d = diff_cells(p[2], p[3])
         rel = sorted(d & relevant) if relevant is not None and p[1].startswith("msg ") else sorted(d)
         if not rel:
+            continue
+        if chk.pid == "C18" and any(c.startswith("P") for c in p[2]) and not any(c.startswith("P") for c in p[3]):
+            # C18 itself: the real code panics on an input / history for which the (proved panic-free) model does not
+            n["spec"] += 1
+            if n["spec"] <= max_witness:
+                det = "the implementation panics (%s) where no panic is documented: model=%s (%s)" % (" ".join(p[2]), " ".join(p[3]), where)
+                ln = re.match(r"\w+ (\d+) ", l)
+                if transcript and p[1].startswith(STATEFUL) and ln:
+                    chk.add_history_witness("spec", p[1], det, transcript, int(ln.group(1)))
+                else:
+                    chk.add_witness("spec", p[1], det)
             continue
         n["corr"] += 1
         if n["corr"] <= 3:
@@ -312,7 +327,7 @@ def c06(chk):
         chk.cov["samples"] += [l.strip() for l in open(s).read().splitlines()[:4]]
 
 
-def lines_run(chk, exe, gen_args, name, relevant=None, stateful=False):
+def lines_run(chk, exe, gen_args, name, relevant=None, stateful=False, only=None):
     """A line-mode transcript: run, drive, report.  Stateful transcripts (scanner tables) go to one driver process."""
     tr = chk.transcript(exe, gen_args, name)
     if tr is None:
@@ -326,7 +341,7 @@ def lines_run(chk, exe, gen_args, name, relevant=None, stateful=False):
     # distinct AND non-trivial, measured: distinct (request, result) lines whose result is neither empty nor the bare marker
     chk.cov["distinct_nontrivial"] += min(st.get("distinct_nontrivial_lines", 0), st.get("evaluations", rep["summary"]["lines"]))
     chk.cov["traces_validated_against_impl"] += rep["summary"]["lines"]
-    report_lines(chk, rep, relevant, name, transcript=tr if stateful else None)
+    report_lines(chk, rep, relevant, name, transcript=tr if stateful else None, only=only)
     return rep
 
 
@@ -369,7 +384,11 @@ def c04(chk):
     if exe2 is not None:
         lines_run(chk, exe2, ["new-lines", "nostd"], "new-nostd")
         lines_run(chk, exe2, ["conv-lines"], "conv-nostd")
-    chk.cov["configurations"] = ["default (std)", "--no-default-features"]
+    # configuration: serde on: values that enter through deserialization must stay in range when read back and encoded
+    exe3 = chk.cargo_build("with_serde")
+    if exe3 is not None:
+        lines_run(chk, exe3, ["serde-lines"], "serde", only=r"(oracle c04-|de nt )")
+    chk.cov["configurations"] = ["default (std)", "--no-default-features", "--features serde,serde_repr"]
     chk.cov["exhaustive"] = False
     chk.cov["rule"] = ("every conversion-table row (regenerated from the source) x its source values: ALL values for newtype, 8- and 16-bit sources; "
                        "powers of two +-1, every newtype maximum +-1, type extremes and seeded random values for 32/64/128-bit and pointer-sized sources; "
